@@ -78,3 +78,22 @@ pub fn hdrs_reverse(v: &mut Vec<RecordHeader>) ensures final(v)@ == old(v)@.reve
 // Vec::with_capacity(n)
 #[verifier::external_body]
 pub fn hdrs_with_capacity(n: usize) -> (r: Vec<RecordHeader>) ensures r@.len() == 0 { unimplemented!() }
+
+// ---- raw byte-string comparison (NOT the key order: R10 keeps the key's own total order abstract) ----
+impl KeyT {
+    // AsRef<[u8]>
+    #[verifier::external_body]
+    pub fn as_ref(&self) -> (r: &[u8]) ensures r@ == self@ { unimplemented!() }
+}
+// `&buf[a..b]`
+#[verifier::external_body]
+pub fn slice_range(buf: &[u8], a: usize, b: usize) -> (r: &[u8])
+    requires a <= b <= buf@.len()
+    ensures r@ == buf@.subrange(a as int, b as int)
+{ unimplemented!() }
+// lexicographic order on byte strings (`Ord for [u8]`)
+pub uninterp spec fn lex_lt(a: Seq<u8>, b: Seq<u8>) -> bool;
+#[verifier::external_body]
+pub fn bytes_cmp_lex(a: &[u8], b: &[u8]) -> (r: CmpOrdering)
+    ensures r is Less <==> lex_lt(a@, b@), r is Greater <==> lex_lt(b@, a@), r is Equal <==> a@ == b@
+{ unimplemented!() }
